@@ -33,7 +33,8 @@ func (eng) Rule() string {
 		"gate and returns nil or an error when the harness says so, no worker exists (fork storms against Max, " +
 		"normalisation rounds and heartbeats while forks are parked, injected ErrWorker with a tracked address, kills); " +
 		"mode B (workers): the seam starts a real in-memory node.Worker over loopback RPC so that workers connect and become " +
-		"Ready, the harness then stops workers, raises exceptions on them and kills them. A tracer on the supervisor " +
+		"Ready, the harness then stops workers, raises exceptions on them and kills them; script late-report: the first fork is parked, " +
+		"killed and replaced before it reported, then reports. Errors are counted as they are reported to the supervisor. A tracer on the supervisor " +
 		"machine samples the worker map at every TransitionEnd, data points in PoolReadyEnter/Exit report the count the " +
 		"handler saw. An evaluation is one transition end or one PoolReady negotiation judged; a distinct item is a " +
 		"distinct (mode, Min, Max, Warm, tracked, ready, PoolReady active) tuple."
@@ -150,6 +151,8 @@ type monitor struct {
 	// kills
 	needKill      map[string]int
 	killRequested map[string]bool
+	// errors reported per worker address (ErrWorker mutations queued)
+	reported map[string]int
 	// PoolReady
 	negs       []negotiation
 	poolActive bool
@@ -198,6 +201,14 @@ func (m *monitor) MutationQueued(_ am.Api, mut *am.Mutation) {
 		return
 	}
 	called := am.IndexToStates(m.names, mut.Called)
+	// errors attributed to a worker, as they are reported to the supervisor
+	if slices.Contains(called, ssS.ErrWorker) && mut.Type == am.MutationAdd {
+		if addr := argsAddr(mut.Args); addr != "" {
+			m.mx.Lock()
+			m.reported[addr]++
+			m.mx.Unlock()
+		}
+	}
 	if slices.Contains(called, ssS.KillingWorker) && mut.Type == am.MutationAdd {
 		if addr := argsAddr(mut.Args); addr != "" {
 			m.mx.Lock()
@@ -556,7 +567,7 @@ func (e eng) Run(c core.CaseDesc, tier string) *core.CaseResult {
 	sup.MaxClientWorkers = max(1, sup.Max)
 	sup.Mach.HandlerTimeout = 30 * time.Second
 	mon := &monitor{TracerNoOp: &am.TracerNoOp{Id: "c15mon"}, sup: sup, names: sup.Mach.StateNames(), res: res, mode: p.Mode,
-		needKill: map[string]int{}, killRequested: map[string]bool{}, keys: map[string]bool{}}
+		needKill: map[string]int{}, killRequested: map[string]bool{}, keys: map[string]bool{}, reported: map[string]int{}}
 	w.mon = mon
 	am.VerifHookSetData("sup.poolready.enter", func(a ...any) { mon.onNegotiation("enter", a...) })
 	am.VerifHookSetData("sup.poolready.exit", func(a ...any) { mon.onNegotiation("exit", a...) })
@@ -651,6 +662,22 @@ func (e eng) Run(c core.CaseDesc, tier string) *core.CaseResult {
 		if !mon.killRequested[addr] {
 			mon.violate("C15/no-kill-after-errors", fmt.Sprintf("worker %s accumulated %d errors (WorkerErrKill=%d) and no KillingWorker mutation carried its address (ops: %s)", addr, n, sup.WorkerErrKill, strings.Join(log, " ")))
 		}
+	}
+	// the same on what was reported: a worker still tracked at the end, with
+	// more reported errors than WorkerErrKill (all within WorkerErrTtl), and no
+	// kill ever requested
+	stillTracked := sup.VerifWorkerAddrs()
+	for addr, n := range mon.reported {
+		if n <= sup.WorkerErrKill || mon.killRequested[addr] || !slices.Contains(stillTracked, addr) {
+			continue
+		}
+		if _, judged := mon.needKill[addr]; judged {
+			continue
+		}
+		res.Evals++
+		mon.violate("C15/no-kill-after-errors/reported-errors-not-recorded", fmt.Sprintf(
+			"%d errors were reported for worker %s (WorkerErrKill=%d), the supervisor recorded %d of them and never requested a kill (ErrWorker active at the end: %v; ops: %s)",
+			n, addr, sup.WorkerErrKill, sup.VerifWorkerErrs(addr), sup.Mach.Is1(ssS.ErrWorker), strings.Join(log, " ")))
 	}
 	for i := range res.Violations {
 		res.Violations[i].What += " [ops: " + strings.Join(log, " ") + "]"
